@@ -50,7 +50,7 @@ Definition check_lit (a : args_lit) (exp : bool) : bool := Bool.eqb (model_lit a
 Definition case_t_lit : Type := (N * args_lit * bool)%type.
 
 (** group [lexlegacy] (one-off validation of the pre-repair model, see bin/c15_legacy_tie): the
-    harness built against the tree with fix 7ed96a0 reverted vs [iter_segments_legacy] (wrapping build) *)
+    harness built against the tree with fix 7940035 reverted vs [iter_segments_legacy] (wrapping build) *)
 Definition model_lexlegacy (a : args_lex) : option (list seg) :=
   match iter_segments_legacy false (fst a) (snd a) with
   | Some gs => Some (map seg_view (gs ++ [eof_seg gs]))
